@@ -77,6 +77,8 @@ func renderProfile(p *icc.Profile, data []byte) string {
 		t := h.CreatedAt
 		date = fmt.Sprintf("%d-%d-%d-%d-%d-%d", t.Year(), int(t.Month()), t.Day(), t.Hour(), t.Minute(), t.Second())
 	}
+	// the instant, whatever the six numbers are (out-of-range components carry, as time.Date documents)
+	date += fmt.Sprintf(" unix=%d", h.CreatedAt.Unix())
 	b2i := func(b bool) int {
 		if b {
 			return 1
@@ -169,6 +171,10 @@ func c16Oracle(c *corrCtx, class string, hd []byte) {
 	for i := range raw {
 		raw[i] = be.Uint16(hd[24+2*i:])
 	}
+	if got, want := h.CreatedAt.Unix(), unixOfDateTimeNumber(raw); got != want {
+		c.direct(fmt.Sprintf("C16/field/instant/%d-%d-%d-%d-%d-%d", raw[0], raw[1], raw[2], raw[3], raw[4], raw[5]), "creation time is not the instant the dateTimeNumber states (components beyond their range carry over)",
+			map[string]interface{}{"got_unix": got, "want_unix": want, "raw": raw, "got": h.CreatedAt.String()})
+	}
 	if dateValid(raw) {
 		t := h.CreatedAt
 		if t.Year() != int(raw[0]) || int(t.Month()) != int(raw[1]) || t.Day() != int(raw[2]) || t.Hour() != int(raw[3]) || t.Minute() != int(raw[4]) || t.Second() != int(raw[5]) {
@@ -235,11 +241,13 @@ func corrC16(c *corrCtx) {
 	}
 	for _, hh := range []int{0, 23, 24} {
 		for _, mm := range []int{0, 59, 60} {
-			h := iccHeader(r)
-			binary.BigEndian.PutUint16(h[30:], uint16(hh))
-			binary.BigEndian.PutUint16(h[32:], uint16(mm))
-			binary.BigEndian.PutUint16(h[34:], uint16([]int{0, 59, 60, 65535}[r.intn(4)]))
-			emit("time", h[:])
+			for _, ss := range []int{0, 1, 59, 60, 61, 65535} {
+				h := iccHeader(r)
+				binary.BigEndian.PutUint16(h[30:], uint16(hh))
+				binary.BigEndian.PutUint16(h[32:], uint16(mm))
+				binary.BigEndian.PutUint16(h[34:], uint16(ss))
+				emit("time", h[:])
+			}
 		}
 	}
 	n := 300
@@ -354,4 +362,32 @@ func descClass(line string) string {
 		return line
 	}
 	return line[:i] + " desc=some"
+}
+
+// unixOfDateTimeNumber: the instant six 16-bit numbers denote, by civil-date arithmetic of its own
+// (proleptic Gregorian; a component beyond its range carries into the next larger unit)
+func unixOfDateTimeNumber(d [6]uint16) int64 {
+	y, mo := int64(d[0]), int64(d[1])
+	mm := mo - 1
+	y += mm / 12
+	mm %= 12
+	if mm < 0 {
+		mm += 12
+		y--
+	}
+	m := mm + 1
+	if m <= 2 {
+		y--
+	}
+	y += 400 // keep the arithmetic non-negative
+	era := y / 400
+	yoe := y % 400
+	mp := m + 9
+	if m > 2 {
+		mp = m - 3
+	}
+	doy := (153*mp + 2) / 5
+	doe := yoe*365 + yoe/4 - yoe/100 + doy
+	days := era*146097 + doe - 719468 - 146097 + int64(d[2]) - 1
+	return days*86400 + int64(d[3])*3600 + int64(d[4])*60 + int64(d[5])
 }
